@@ -544,4 +544,21 @@ Section Dataflow.
     apply (g_ok e G) in Hok. destruct Hok as [ef [Hin Hr]]. exists ef. repeat split; auto.
     rewrite <- (g_stable e G _ _ Hin). rewrite (no_pred_calls _ k Hp). reflexivity.
   Qed.
+
+  (* transitively: nothing downstream of a job that failed or never ran is ever run *)
+  Inductive depends_plus : fid -> fid -> Prop :=
+  | dp_one x d : In d (jdeps f x) -> depends_plus x d
+  | dp_step x y d : In y (jdeps f x) -> depends_plus y d -> depends_plus x d.
+
+  Theorem failed_starves_downstream e x d : reach e -> depends_plus x d ->
+    (~ In d (ran e) \/ exists efd er, In (d, efd) (xlog e) /\ je_res efd = JFail er) -> ~ In x (ran e).
+  Proof.
+    intros R Hp Hbad. induction Hp as [x d Hd|x y d Hy Hp IH].
+    - eapply failed_dep_starves; eauto.
+    - eapply failed_dep_starves; eauto.
+  Qed.
+
+  (* the Results targets are written only when no job failed *)
+  Theorem results_untouched_on_failure e : xfail e <> [] -> results f e = None.
+  Proof. unfold results. destruct (xfail e); [intros H; now elim H | reflexivity]. Qed.
 End Dataflow.
